@@ -392,7 +392,36 @@ def gen_ShardFacts():
     if uses_unique == uses_occ:
         raise TranslateError("recalculate_shard_size: cannot tell how chunk table entries are counted")
     out.append("Definition size_per_occurrence : bool := %s.\n" % ("true" if uses_occ else "false"))
-    return "".join(out), {im.path: im.digest}
+    # expiry rules of MDBShardFile::load_all / clean_expired_shards, translated
+    fh = Src(os.path.join(REPO, "mdb_shard/src/shard_file_handle.rs"))
+    la = fh.fn_body("load_all")
+    m = re.search(r"if load_expired \|\| ([^{]+) \{ ret\.push\(s\); \}", la)
+    if not m:
+        raise TranslateError("load_all: expiry filter not found")
+    tr = ExprTr({"current_time": "now", "s.shard.metadata.shard_key_expiry": "expiry", "expiration_buffer_secs": "grace"})
+    out.append("Definition shard_loaded (now expiry : N) : bool := %s.\n" % tr.tr(m.group(1)))
+    ce = fh.fn_body("clean_expired_shards")
+    m = re.search(r"if s\.shard\.metadata\.shard_key_expiry\.saturating_add\(expiration_buffer_secs\) (<=|<|>=|>) current_time \{ .*?std::fs::remove_file\(&s\.path\);", ce)
+    if not m:
+        raise TranslateError("clean_expired_shards: deletion rule not found")
+    out.append("Definition sat_add64 (a b : N) : N := N.min (a + b) 18446744073709551615.\n")
+    out.append("Definition shard_deleted (now expiry grace : N) : bool := %s.\n" % ExprTr.binop(m.group(1), "(sat_add64 expiry grace)", "now"))
+    # keyed export: which bytes of a dropped file are skipped (fact), timestamps
+    ex = Src(os.path.join(REPO, "mdb_shard/src/shard_format.rs"))
+    eb = ex.fn_body("export_as_keyed_shard_impl")
+    if "let n_skip_bytes = num_entries * size_of::<FileDataSequenceEntry>() + n_extended_bytes; copy(&mut reader.take(n_skip_bytes as u64), &mut std::io::sink())?;" in eb:
+        skips = "true"
+    elif "copy(&mut reader.take(n_extended_bytes as u64), &mut std::io::sink())?;" in eb:
+        skips = "false"
+    else:
+        raise TranslateError("export_as_keyed_shard_impl: unrecognised skip of dropped file info")
+    out.append("Definition export_skips_dropped_entries : bool := %s.\n" % skips)
+    for p in ["if hmac_key != HMACKey::default() { chunk.chunk_hash = chunk.chunk_hash.hmac(hmac_key); }",
+              "chunk_lookup.sort_by_key(|s| s.0);", "out_footer.chunk_hash_hmac_key = hmac_key;",
+              "out_footer.shard_key_expiry = creation_time .add(key_valid_for) .duration_since(UNIX_EPOCH) .unwrap_or_default() .as_secs();"]:
+        if p not in eb:
+            raise TranslateError("export_as_keyed_shard_impl statement changed: %r" % p)
+    return "".join(out), {im.path: im.digest, fh.path: fh.digest, ex.path: ex.digest}
 
 
 GROUPS = {
